@@ -32,6 +32,8 @@ type Case struct {
 	// NoConcreteValidation skips the differential concrete-model validation run for this case
 	// (used by harnesses whose obligations are existential).
 	NoConcreteValidation bool
+	// MustReach lists reachability markers that some path has to hit (vacuity guard).
+	MustReach []string
 }
 
 // Config of a property run.
@@ -167,6 +169,7 @@ func RunProperty(cfg Config, cases []Case) int {
 		mismatches                           []replayResult
 		inconclusive                         []string
 		concreteRuns, concreteFail           int
+		rawMismatch                          int
 		distinct                             = map[string]bool{}
 	)
 	exit := 0
@@ -207,6 +210,9 @@ func RunProperty(cfg Config, cases []Case) int {
 			case symalg.StInconclusive:
 				nInconc++
 				inconclusive = append(inconclusive, r.c.ID+"#"+id+": "+o.Reason)
+				if strings.HasPrefix(o.Reason, "ENGINE-MISMATCH") {
+					rawMismatch++
+				}
 			}
 		}
 		if r.concrete != nil {
@@ -267,6 +273,12 @@ func RunProperty(cfg Config, cases []Case) int {
 	if unlisted > 0 {
 		exit = 1
 	}
+	if rawMismatch > 0 {
+		fmt.Printf("ENGINE-MISMATCH property=%s: %d obligations whose raw-term re-check contradicts the normal-form verdict\n", cfg.Property, rawMismatch)
+		if exit == 0 {
+			exit = 2
+		}
+	}
 	if len(mismatches) > 0 || concreteFail > 0 {
 		for _, m := range mismatches {
 			fmt.Printf("ENGINE-MISMATCH property=%s case=%s obligation=%s (model=%v real=%s): %s\n", cfg.Property, m.Case, m.Obligation, m.ModelRepro, m.RealRepro, strings.SplitN(m.Reason, "\n", 2)[0])
@@ -295,7 +307,7 @@ func RunProperty(cfg Config, cases []Case) int {
 			"states":                        paths,
 			"transitions":                   int(queries["decide_queries"]) + int(queries["valid_queries"]) + nWitnessed + forks,
 			"traces_validated_against_impl": concreteRuns,
-			"evaluations":                   int(queries["sat"] + queries["unsat"] + queries["unknown"]),
+			"evaluations":                   int(queries["sat"] + queries["unsat"] + queries["unknown"] + queries["raw_checks"]),
 			"distinct_nontrivial":           len(distinct),
 			"rule":                          "one evaluation = one SMT query (branch-feasibility, validity or witness query); a case is one concrete configuration (policy, IDs, quorum, shapes, deviator) inside which every field/group value is a symbolic variable mod the real group order; an obligation counts as distinct non-trivial when it is a different (case, assertion id) pair that needed at least one solver query or is a per-path concrete check",
 			"samples":                       samples,
@@ -304,6 +316,10 @@ func RunProperty(cfg Config, cases []Case) int {
 			"obligations_valid":             nValid,
 			"valid_checks_discharged_by_solver_query":   int(queries["valid_queries"]),
 			"valid_checks_reduced_to_true_by_normal_form": int(queries["syntactic_valid"]),
+			"raw_form_rechecks":                         int(queries["raw_checks"]),
+			"raw_form_rechecks_confirmed_unsat_by_solver": int(queries["raw_confirmed"]),
+			"raw_form_rechecks_unknown":                  int(queries["raw_unknown"]),
+			"raw_form_rechecks_disagreeing":              int(queries["raw_disagree"]),
 			"obligations_witnessed":         nWitnessed,
 			"obligations_violated":          nViol,
 			"obligations_inconclusive":      nInconc,
@@ -361,6 +377,12 @@ func runCase(cfg Config, c Case, modulus string) *caseResult {
 	res.out = eng.Explore(c.ID, func(r *symalg.Run) { c.Sym(&SymEnv{R: r}) })
 	res.stats = eng.SolverStats()
 
+	for _, mr := range c.MustReach {
+		if _, ok := res.out.Obligations["reach:"+mr]; !ok && res.out.Inconclusive == "" {
+			res.out.Obligations["reach:"+mr] = &symalg.Obligation{ID: "reach:" + mr, Kind: "reach", Status: symalg.StViolated,
+				Reason: "required reachability marker never reached on any feasible path (vacuous harness or the operation always fails)"}
+		}
+	}
 	// vacuity: every harness must reach at least one obligation
 	if len(res.out.Obligations) == 0 && res.out.Inconclusive == "" {
 		res.out.Inconclusive = "vacuous: no obligation reached"
@@ -375,6 +397,19 @@ func runCase(cfg Config, c Case, modulus string) *caseResult {
 		anyViol = true
 		rp := replayResult{Obligation: id, Case: c.ID, Modulus: modulus, Model: o.Model, Reason: o.Reason, RealRepro: "n/a"}
 		rp.ModelRepro = replayModel(cfg, c, q, id, o.Model)
+		if !rp.ModelRepro {
+			// concrete replay search (DESIGN §5): the path may depend on hash-derived constants that a
+			// concrete run does not reproduce bit for bit; a genuine defect typically fails for generic
+			// inputs, so seeded concrete runs are tried. A native failure is a real, replayable violation.
+			for sd := int64(1); sd <= 8 && !rp.ModelRepro; sd++ {
+				m := map[string]string{"__seed__": fmt.Sprint(cfg.Seed*1000 + sd)}
+				if replayModel(cfg, c, q, id, m) {
+					rp.ModelRepro = true
+					rp.Model = m
+					o.Model = m
+				}
+			}
+		}
 		if c.Real != nil && modulus == "secp256k1" && o.Model != nil {
 			if replayReal(c, id, o.Model) {
 				rp.RealRepro = "yes"
@@ -412,9 +447,16 @@ func modelBig(m map[string]string) map[string]*big.Int {
 // solver's assignment; the obligation must fail there.
 func replayModel(cfg Config, c Case, q *big.Int, obligation string, model map[string]string) bool {
 	if model == nil {
-		return false
+		if obligation == "" {
+			return false
+		}
+		model = map[string]string{}
 	}
-	ce, _ := symalg.NewEngine(symalg.Options{Q: q, Seed: cfg.Seed, Concrete: modelBig(model)})
+	seed := cfg.Seed
+	if sv, ok := model["__seed__"]; ok {
+		fmt.Sscan(sv, &seed)
+	}
+	ce, _ := symalg.NewEngine(symalg.Options{Q: q, Seed: seed, Concrete: modelBig(model)})
 	out := ce.Explore(c.ID, func(r *symalg.Run) { c.Sym(&SymEnv{R: r}) })
 	if o, ok := out.Obligations[obligation]; ok && o.Status == symalg.StViolated {
 		return true
